@@ -175,6 +175,8 @@ def ceval(fn, op, env, depth=0):
         if v is None:
             return None
         return v & ((1 << bits.get(i.d.get("ty"), 64)) - 1)
+    if i.op in ("bitcast", "inttoptr", "ptrtoint"):
+        return ceval(fn, i.ops[0], env, depth + 1)
     if i.op == "sext":
         v = ceval(fn, i.ops[0], env, depth + 1)
         src = fn.inst(i.ops[0])
@@ -208,6 +210,18 @@ def ceval(fn, op, env, depth=0):
         if x is None or y is None:
             return None
         r = {"eq": x == y, "ne": x != y, "uge": x >= y, "ugt": x > y, "ule": x <= y, "ult": x < y}.get(i.d["pred"])
+        if r is None and i.d["pred"] in ("slt", "sgt", "sle", "sge"):
+            nb = None
+            for o in i.ops:
+                if o[0] == "c" and len(o) > 2:
+                    nb = o[2]
+                elif o[0] == "i" and fn.insts[o[1]].d.get("ty") in bits:
+                    nb = bits[fn.insts[o[1]].d["ty"]]
+            if nb is None:
+                return None
+            sx = x - (1 << nb) if x >> (nb - 1) else x
+            sy = y - (1 << nb) if y >> (nb - 1) else y
+            r = {"slt": sx < sy, "sgt": sx > sy, "sle": sx <= sy, "sge": sx >= sy}[i.d["pred"]]
         return None if r is None else int(r)
     if i.op == "select":
         c = ceval(fn, i.ops[0], env, depth + 1)
@@ -294,6 +308,14 @@ def concrete_walk_any(fn, env, stop):
             if stop(i):
                 return i, env
         t = b.term
+        if t.op == "switch":
+            c = ceval(fn, t.ops[0], {k_: v_ for k_, v_ in env.items() if not isinstance(v_, tuple)})
+            nb = fn.blocks[t.d.get("default")]
+            for val, tgt in t.d.get("cases", []):
+                if c is not None and val == c:
+                    nb = fn.blocks[tgt]
+            prev, b = b, nb
+            continue
         if t.op != "br":
             return None, env
         if t.ops:
